@@ -210,6 +210,30 @@ pub fn generate(count: usize, seed: u64, profile: u8) -> Vec<(String, &'static s
                 p.sq[sq] = -strong * (1 + rnd(4) as i8);
             }
             p.white = strong > 0;
+        } else if profile == 3 {
+            // promotion positions: the side to move has one to three pawns on its seventh rank,
+            // a few pieces, and the decisive move(s) are promotions (filtered below)
+            let strong: i8 = if rnd(2) == 0 { 1 } else { -1 };
+            let seventh = if strong > 0 { 6 } else { 1 };
+            for _ in 0..(1 + rnd(3) as usize) {
+                let sq = seventh * 8 + rnd(8) as usize;
+                if p.sq[sq] == 0 {
+                    p.sq[sq] = strong;
+                }
+            }
+            let kinds = [1i8, 1, 2, 2, 3, 3, 4, 4, 5];
+            for _ in 0..(2 + rnd(7) as usize) {
+                let sq = rnd(64) as usize;
+                if p.sq[sq] != 0 {
+                    continue;
+                }
+                let kind = kinds[rnd(kinds.len() as u64) as usize];
+                if kind == 1 && (sq < 8 || sq >= 56) {
+                    continue;
+                }
+                p.sq[sq] = if rnd(3) == 0 { strong * kind } else { -strong * kind };
+            }
+            p.white = strong > 0;
         } else if minor_only {
             // endings without pawns, rooks and queens: one side has two or three minor pieces,
             // the other at most one (mates exist although most of these endings are drawn)
@@ -229,7 +253,7 @@ pub fn generate(count: usize, seed: u64, profile: u8) -> Vec<(String, &'static s
             }
             p.white = strong > 0;
         } else {
-            let n = 5 + rnd(12) as usize;
+            let n = if profile == 4 { 8 + rnd(14) as usize } else { 5 + rnd(12) as usize };
             let kinds = [1i8, 1, 1, 1, 1, 2, 2, 3, 3, 4, 4, 5];
             for _ in 0..n {
                 let sq = rnd(64) as usize;
@@ -250,6 +274,39 @@ pub fn generate(count: usize, seed: u64, profile: u8) -> Vec<(String, &'static s
         let c = classify(&p);
         if !c.interesting() {
             return None;
+        }
+        if profile == 4 {
+            // "greedy trap" positions: a mate in two whose keys are all quiet, non-checking moves
+            // while some other move wins at least a minor piece at once, and after some key and
+            // some quiet defence every mating move is a capture (input selection: a search that
+            // misjudges the mate is tempted by material, so the wrong choice becomes visible)
+            if c.mate_in_2.is_empty() {
+                return None;
+            }
+            let moves = p.legal_moves();
+            let quiet_keys = moves.iter().filter(|m| c.mate_in_2.contains(&m.uci())).all(|m| m.captured == 0 && !m.ep && m.promo == 0 && !p.make(m).in_check(!p.white));
+            let greedy = moves.iter().any(|m| !c.mate_in_2.contains(&m.uci()) && m.captured.abs() >= 2);
+            if !quiet_keys || !greedy {
+                return None;
+            }
+            let capture_mate = moves.iter().filter(|m| c.mate_in_2.contains(&m.uci())).any(|k| {
+                let a = p.make(k);
+                a.legal_moves().iter().filter(|r| r.captured == 0).any(|r| {
+                    let b = a.make(r);
+                    let mating: Vec<_> = b.legal_moves().into_iter().filter(|x| is_mate(&b.make(x))).collect();
+                    !mating.is_empty() && mating.iter().all(|x| x.captured != 0)
+                })
+            });
+            if !capture_mate {
+                return None;
+            }
+        }
+        if profile == 3 {
+            // keep only positions in which EVERY decisive move is a promotion (input selection)
+            let key: &Vec<String> = if !c.mate_in_1.is_empty() { &c.mate_in_1 } else if !c.mate_in_2.is_empty() { &c.mate_in_2 } else { return None };
+            if !key.iter().all(|k| k.len() == 5) {
+                return None;
+            }
         }
         if profile == 2 {
             // keep only positions whose decisive moves ALL come late in the engine's generation
@@ -362,7 +419,7 @@ pub fn targets(tier: &str) -> Vec<Target> {
     let (n2, n1, na) = if thorough { (1500, 300, 300) } else { (70, 15, 15) };
     let mut taken = [0usize; 3];
     let mut heavy_taken = 0usize;
-    for (file, minor, heavy) in [(include_str!("mate_family.txt"), false, false), (include_str!("mate_family_minor.txt"), true, false), (include_str!("mate_family_heavy.txt"), true, true)] {
+    for (file, minor, heavy) in [(include_str!("mate_family.txt"), false, false), (include_str!("mate_family_minor.txt"), true, false), (include_str!("mate_family_promo.txt"), true, false), (include_str!("mate_family_greedy.txt"), true, false), (include_str!("mate_family_heavy.txt"), true, true)] {
         if minor {
             taken = [0; 3];
         }
